@@ -135,6 +135,15 @@ def run_case(ctx, res, p):
                             signature="C16:interp")
         if np.max(np.abs(ins - Y)) > jitter * np.max(np.abs(w)) * (1 + 1e-6) + 1e-10 * kscale:
             res.oracle_fail("training values not interpolated within jitter*|w|", p, signature="C16:interp-bound")
+    # (3b) "values are the mean" makes the noise level irrelevant (every gp_type): same predictor as sigma = 0
+    if p["y_is_mean"] and not (np.ndim(sigma) == 0 and float(sigma) == 0.0):
+        o0 = np.asarray(make_est(p, sigma=0).fit_predict(X, Y, Xnew), float)
+        dv = np.max(np.abs(o0 - out)) / scale
+        res.dev("y_is_mean_ignores_sigma_over_tol", dv / tol)
+        res.count("y_is_mean_sigma_checked")
+        if sharp and dv > tol:
+            res.oracle_fail("with y_is_mean the prediction depends on sigma (values are not treated as the mean)", p,
+                            detail={"rel": float(dv), "tol": float(tol)}, signature="C16:y-is-mean-sigma")
     # (4) constant per-cell sigma vector == scalar
     if not np.ndim(sigma) and p["gp_type"] == "full" and not p["y_is_mean"]:
         ov = np.asarray(make_est(p, sigma=np.full(n, float(sigma))).fit_predict(X, Y, Xnew), float)
